@@ -129,6 +129,10 @@ func (t *Tree) parseOuterExpr(expr Expr) (Expr, error) {
 					args = append(args, v)
 				}
 				attr = NewStringExpr(exp.Name, exp.Pos)
+			case *NullExpr, *BoolExpr:
+				// After a dot the words none, null, true and false are names
+				// like any other: settings.none, flags.true.
+				attr = NewStringExpr(first.value, first.Pos)
 			default:
 				// The offending token is the operand, not the dot.
 				return nil, newUnexpectedTokenError(first)
